@@ -52,7 +52,7 @@ def gen_plan(rng, prop):
            "max_depth": rng.randint(1, 5), "grace_period": rng.choice([5, 10, 20, 50]),
            "leaf_reservoir_length": rng.randint(1, 6), "tree_seed": rng.randint(0, 2 ** 20),
            "use_storage": rng.random() < 0.6, "direct": rng.random() < 0.4, "seed": rng.getrandbits(32),
-           "explainer": wchoice(rng, [(None, 60), ("pfi", 20), ("sage", 20)])}
+           "explainer": wchoice(rng, [(None, 50), ("pfi", 15), ("sage", 15), ("both", 20)])}
     T = wchoice(rng, [(rng.randint(30, 80), 25), (rng.randint(80, 200), 35), (rng.randint(200, 400), 30),
                       (rng.randint(400, 700), 10)])
     n_drift = wchoice(rng, [(0, 10), (1, 25), (2, 30), (3, 20), (4, 15)])
@@ -73,7 +73,8 @@ def gen_plan(rng, prop):
             sub = [] if shape == "empty" else idx if shape == "full" else idx[:1] if shape == "single" else \
                 idx[:rng.randint(1, len(names))]
             ops.append({"op": "impute", "subset": sub, "xt": 100000 + len(ops), "n": rng.randint(1, 4),
-                        "stype": rng.choice(["list", "set", "tuple"]), "rs": rng.getrandbits(48)})
+                        "stype": rng.choice(["list", "set", "tuple"]), "rs": rng.getrandbits(48),
+                        "same_object": rng.random() < 0.3})
         elif cfg["explainer"]:
             t += 1
             ops.append({"op": "explain", "t": t, "rs": rng.getrandbits(48)})
@@ -147,10 +148,18 @@ def run_tree_plan(plan, c01=False):
     model = _Model(names)
     imputer = TreeImputer(model, storage, direct_predict_numeric=cfg["direct"], use_storage=cfg["use_storage"])
     explainer = None
+    second = None
+    sqloss = lambda y, p: (y - p["output"]) ** 2   # noqa: E731
     if cfg["explainer"]:
         cls = IncrementalPFI if cfg["explainer"] == "pfi" else IncrementalSage
-        explainer = cls(model_function=model, loss_function=lambda y, p: (y - p["output"]) ** 2, feature_names=names,
+        explainer = cls(model_function=model, loss_function=sqloss, feature_names=names,
                         storage=storage, imputer=imputer, smoothing_alpha=0.1, n_inner_samples=2)
+        if cfg["explainer"] == "both":
+            # the deployment of the repository's examples: SAGE and PFI share one storage and one imputer and see the
+            # same observation object; only SAGE updates the storage
+            second = IncrementalPFI(model_function=model, loss_function=sqloss, feature_names=names, storage=storage,
+                                    imputer=imputer, smoothing_alpha=0.1, n_inner_samples=2)
+    buffer_x = {}
     observed = []                    # every data point handed to the storage
     seen_values = {f: set() for f in names}
     updates = 0
@@ -261,6 +270,22 @@ def run_tree_plan(plan, c01=False):
                         if v:
                             return v
                 probe("explain_checked")
+                v = after_update(x, i)          # the first explainer has stored the observation by now
+                if v:
+                    return v
+                if second is not None:
+                    snap_mid = snapshot_reservoirs(storage)
+                    del model.log[:]
+                    second.explain_one(x, y, update_storage=False)     # the same observation object, after the update
+                    if x != x_before:
+                        return viol("instance-modified", "%r -> %r" % (x_before, x), i)
+                    inputs2 = model.log[1:]
+                    for j, f in enumerate(names):
+                        v = check_impute_events(x_before, [f], inputs2[j * 2:(j + 1) * 2], snap_mid, i)
+                        if v:
+                            return v
+                    if inputs2:
+                        probe("second_explainer_checked")
                 if c01 and cfg["explainer"] == "sage":
                     # C01 in a deployment with the tree storage / tree imputer (float arithmetic)
                     iv = explainer.importance_values
@@ -274,11 +299,14 @@ def run_tree_plan(plan, c01=False):
                                             "detail": "tree-imputer deployment: sum(importance)=%r explained_loss=%r" % (tot, el)}
                         return res
                     probe("identity_checked_tree_world")
-                v = after_update(x, i)
-                if v:
-                    return v
             else:
                 x = make_row(cfg, op["xt"])
+                if op.get("same_object"):
+                    # the caller reuses one buffer dict and refills it in place before every call
+                    buffer_x.clear()
+                    buffer_x.update(x)
+                    x = buffer_x
+                    probe("same_instance_object_reused")
                 x_before = dict(x)
                 S = [names[j] for j in op["subset"]]
                 subset = list(S) if op["stype"] == "list" else set(S) if op["stype"] == "set" else tuple(S)
